@@ -289,6 +289,16 @@ impl<R: DynamicChannelRegion> RegionHandler for DynamicChannelPlan<R> {
         }
         // Disable channel if frequency is 0
         if freq == 0 {
+            // Refuse to remove the only channel that is both defined and enabled:
+            // channel selection would have nothing left to pick and never return.
+            let another_usable = (0..NUM_CHANNELS_DYNAMIC).any(|i| {
+                i != index
+                    && self.channels[i as usize].is_some()
+                    && self.channel_mask.is_enabled(i as usize).unwrap_or(false)
+            });
+            if !another_usable {
+                return (false, false);
+            }
             self.channels[index as usize] = None;
             self.channel_mask.set_channel(index as usize, false);
             return (true, true);
